@@ -189,11 +189,13 @@ NoReduction(fn) == /\ \A k \in DOMAIN fn.ms.ins : \A m \in DOMAIN fn.ms.ins[k].a
                    /\ Len(fn.internal) = 0 /\ HasMapInputs(fn)
                    /\ InputAxisNames(fn) = SeqToSet(OutAxes(fn))
 (* the documented restriction of NestedPipeFunc on MapSpecs: none, or all element-wise over identical axes; and   *)
-(* no nested function consumes a mapped output of another one as a whole array (that is a reduction as well)      *)
+(* no nested function consumes as a whole array something that is mapped inside the nest - an output of another   *)
+(* nested function or a parameter another nested function maps - (that is a reduction as well)                    *)
 NestMsOK(d, F) == \/ \A i \in F : ~d.funcs[i].has_ms
                   \/ /\ \A i \in F : d.funcs[i].has_ms /\ NoReduction(d.funcs[i])
                      /\ \A i, j \in F : OutAxes(d.funcs[i]) = OutAxes(d.funcs[j])
-                     /\ \A i \in F : \A p \in FreeParams(d, i) \cap OutputsOfSet(d, F) : IsMappedParam(d.funcs[i], p)
+                     /\ \A i \in F : \A p \in FreeParams(d, i) :
+                            (p \in OutputsOfSet(d, F) \/ \E j \in F : IsMappedParam(d.funcs[j], p)) => IsMappedParam(d.funcs[i], p)
 (* the arguments make sense at all (otherwise the code is expected to refuse) *)
 NestWellFormed(o, S, N) ==
     LET d == o.sem  F == NestFuncSet(o, S) IN
